@@ -24,6 +24,7 @@ var verifNotified []types.Uid
 var verifPrevBase = types.ModeCPublic // fixed bits of the former member's stored modes
 var verifForceActor = -1              // index into allUsers(), -1 = any
 var verifForceTarget = -1             // index into allUsers() for {set sub user=...}, -1 = any
+var verifSubLimit = 4                 // globals.maxSubscriberCount for the world
 var verifSubChanTopic = false         // channel-enabled group; requests may then be addressed by the chn name
 
 // bits of every requested/granted/stored mode that are symbolic (a knob: focused harnesses widen it)
@@ -62,7 +63,7 @@ func verifSubSetup(nMembers int) *verifSubWorld {
 	w.fx, w.t = fx, fx.topic
 	t := w.t
 	verifNotified = nil
-	globals.maxSubscriberCount = 4
+	globals.maxSubscriberCount = verifSubLimit
 	w.members = fx.uids
 	w.previous, w.stranger = 8, 9
 	base := types.ModeCPublic
@@ -284,6 +285,24 @@ func harnessC06Step(nMembers, op int) {
 	} else {
 		// owner keeps O and J whoever asked
 		verifAssert(w.isOwnerMode(ownerNow) && (ownerNow.modeWant&ownerNow.modeGiven).IsJoiner(), "owner-is-not-removed-banned-or-demoted"+sfx)
+	}
+	// The other half of "ownership moves only after a grant by the owner": no step by anybody else puts O into
+	// anyone's granted mode - so every O found in a non-owner's grant in a pre-state was put there by the owner.
+	for _, u := range w.allUsers() {
+		now, in := t.perUser[u]
+		if !in || !now.modeGiven.IsOwner() {
+			continue
+		}
+		had := false
+		if old, was := w.before[u]; was {
+			had = old.modeGiven.IsOwner()
+		} else if prev, ok := w.sbefore[u]; ok {
+			// a former member's grant survives in its soft-deleted row and is restored on resubscription
+			had = prev.ModeGiven.IsOwner()
+		}
+		if !had {
+			verifAssert(w.actor == w.ownerBefore, "ownership-granted-only-by-the-owner"+sfx)
+		}
 	}
 	_ = denied
 	verifReach("end")
